@@ -14,18 +14,20 @@ Variable W H : Z.
 Variable fs : bool.
 Variable tbs : Z -> tabs.
 Variable pvis : Z -> Z.
+Variable wof : list Z -> Z.
 Hypothesis HW : 1 <= W.
 Hypothesis HH : 0 <= H.
 Hypothesis Hpv : forall c a, ahs (tbs c) a = false -> pvis (apen (tbs c) a) = pvis 0.
+Hypothesis Hw32 : wof [32] = 1.
 
 Lemma render_done_scroll : forall r t cfg scr r' ks n,
-  Sync W H fs tbs pvis r t -> wf_screen W H scr -> 1 <= H ->
+  Sync W H fs tbs pvis wof r t -> wf_screen W wof H scr -> 1 <= H ->
   r_render tbs fs r cfg true W H scr = (r', ks) ->
   trunB H W (t, n) ks = (trun W t ks, n) \/
   exists tb', trunB H W (t, n) ks = (tb', n + 1) /\ shifted H (trun W t ks) tb'.
 Proof.
   intros r t cfg scr r' ks n S Ws H1 R.
-  pose proof (render_done_rows W H fs tbs pvis HW HH Hpv r t cfg scr r' ks S Ws H1 R) as OK.
+  pose proof (render_done_rows W H fs tbs pvis wof HW HH Hpv Hw32 r t cfg scr r' ks S Ws H1 R) as OK.
   rewrite (r_render_unfold W H fs tbs) in R.
   pose proof (plain_screen_diff (tbs cfg) W H fs true scr (last2_of W H r cfg) (rpos r) None
                 (match rsize r with Some (w, _) => w | None => 0 end) (rcv r)) as PD.
